@@ -17,6 +17,7 @@ pub struct PanicRecord {
 
 thread_local! {
     static LAST: RefCell<Option<PanicRecord>> = const { RefCell::new(None) };
+    static GUARD_DEPTH: std::cell::Cell<u32> = const { std::cell::Cell::new(0) };
 }
 
 static INSTALL: Once = Once::new();
@@ -77,6 +78,11 @@ pub fn install() {
                     file = f;
                     line = l;
                 }
+            }
+            // a panic outside a guarded section is a harness bug (or a panic in a thread the engine under test
+            // spawned): say so on stderr instead of swallowing it
+            if GUARD_DEPTH.with(|d| d.get()) == 0 && std::thread::current().name().is_some() {
+                eprintln!("[icyv] unguarded panic in thread {:?}: {msg} at {file}:{line}", std::thread::current().name());
             }
             LAST.with(|c| *c.borrow_mut() = Some(PanicRecord { file, line, msg }));
         }));
@@ -185,7 +191,10 @@ pub fn signature(rec: &PanicRecord) -> String {
 pub fn guarded<T>(f: impl FnOnce() -> T) -> Result<T, (String, String)> {
     install();
     clear();
-    match std::panic::catch_unwind(std::panic::AssertUnwindSafe(f)) {
+    GUARD_DEPTH.with(|d| d.set(d.get() + 1));
+    let r = std::panic::catch_unwind(std::panic::AssertUnwindSafe(f));
+    GUARD_DEPTH.with(|d| d.set(d.get().saturating_sub(1)));
+    match r {
         Ok(v) => Ok(v),
         Err(_) => {
             let rec = take().unwrap_or_default();
